@@ -188,19 +188,33 @@ func solveOne(o *Obligation, timeout int, thorough bool) {
 		}
 		return
 	}
+	// thorough: every solver works on every obligation and any `sat` wins (a disagreement is an alarm); once two
+	// independent solvers have answered `unsat` the remaining ones are stopped - waiting out their time limit adds nothing
 	var wg sync.WaitGroup
 	var mu sync.Mutex
 	outs := map[string]string{}
+	ctx, cancel := context.WithCancel(context.Background())
+	defer cancel()
+	nUnsat := 0
 	for _, sp := range solvers {
 		wg.Add(1)
 		go func(sp solverSpec) {
 			defer wg.Done()
-			r, out, secs := runSolver(sp, o.Script, timeout, tag)
+			r, out, secs := runSolverCtx(ctx, sp, o.Script, timeout, tag)
 			mu.Lock()
+			if ctx.Err() != nil && r != "sat" && r != "unsat" {
+				r = "stopped"
+			}
 			o.AllRes[sp.name] = r
 			outs[sp.name] = out
-			if secs > o.Secs {
+			if secs > o.Secs && r != "stopped" {
 				o.Secs = secs
+			}
+			if r == "unsat" {
+				nUnsat++
+				if nUnsat >= 2 {
+					cancel()
+				}
 			}
 			mu.Unlock()
 		}(sp)
